@@ -1,5 +1,6 @@
 SPECIFICATION FairSpec
-CONSTANTS Cap = 1  Payload = 2  Variant = "run_process"  Drain = TRUE  CloseAll = TRUE  Timeout = TRUE  Escalate = TRUE  DtorSig = "KILL"  ProgName = "ignhang"
+CONSTANTS Cap = 1  Payload = 2  Variant = "run_process"  Drain = TRUE  CloseAll = TRUE  Timeout = TRUE  Escalate = TRUE  DtorSig = "KILL"  FirstName = "none"  ReapOnAssign = TRUE  ProgName = "ignhang"
 CONSTANT Prog <- MCProg
+CONSTANT FirstProg <- MCFirst
 INVARIANTS OutputComplete StatusExact Reaped AllFdsClosed StdinDelivered NoThrowUnlessEpipe TimeoutEnds
 PROPERTY Termination
